@@ -2,8 +2,9 @@
 independent per-node choices: data-element end tag yes/no, CDATA spelling,
 inter-token whitespace, whitespace around data.
 
-Never generates the UNSPECIFIED layouts: whitespace between a start tag and
-'<![CDATA[' or between ']]>' and the end tag; '<' inside data.
+Never generates the UNSPECIFIED layout: '<' inside data.  (Whitespace between a start
+tag and '<![CDATA[' or between ']]>' and the end tag used to be left out as
+unspecified; the library dropped the data there - repaired, and rendered since.)
 """
 import itertools
 
@@ -22,7 +23,7 @@ def leaf_forms(data):
     return forms
 
 
-def render(tree, leaf_choice, ws_choice, pad_choice=None):
+def render(tree, leaf_choice, ws_choice, pad_choice=None, empty_choice=None):
     """leaf_choice(node_index, data) -> (closed, cdata); ws_choice(slot_index) -> filler string;
     pad_choice(node_index) -> (lead, trail) whitespace around plain data."""
     out = []
@@ -37,7 +38,10 @@ def render(tree, leaf_choice, ws_choice, pad_choice=None):
         idx = counter["node"]
         counter["node"] += 1
         tag, content = node[0], node[1]
-        if isinstance(content, list):
+        if isinstance(content, list) and not content and empty_choice is not None and empty_choice(idx):
+            out.append(f"<{tag}{empty_choice(idx)}>")  # XML empty-element tag ("/" or " /")
+            out.append(ws())
+        elif isinstance(content, list):
             out.append(f"<{tag}>")
             out.append(ws())
             for j, c in enumerate(content):
@@ -52,7 +56,10 @@ def render(tree, leaf_choice, ws_choice, pad_choice=None):
                 closed = True
             out.append(f"<{tag}>")
             if cdata:
-                out.append(f"<![CDATA[{content}]]>")
+                # blank space between the start tag and the section, and between the section and what follows, is formatting
+                # (the section's own content is literal, blanks included)
+                lead, trail = pad_choice(idx) if pad_choice else ("", "")
+                out.append(f"{lead}<![CDATA[{content}]]>{trail}")
             else:
                 lead, trail = pad_choice(idx) if pad_choice else ("", "")
                 out.append(lead + content + trail)
@@ -122,7 +129,15 @@ def random_rendering(tree, rng):
             return ("", "")
         return (rng.choice(["", " ", "\n  "]), rng.choice(["", " ", "\n", "\r\n  "]))
 
-    return render(tree, leaf_choice, ws_choice, pad_choice)
+    picks = {}
+
+    def empty_choice(i):
+        # an aggregate without children may be written as an XML empty-element tag (not in the SGML-only mode)
+        if i not in picks:
+            picks[i] = "" if (0.2 <= mode < 0.4 or rng.random() < 0.6) else rng.choice(["/", " /"])
+        return picks[i]
+
+    return render(tree, leaf_choice, ws_choice, pad_choice, empty_choice)
 
 
 # ---- tree enumeration / generation -------------------------------------------
